@@ -77,8 +77,10 @@ theorem hash_keys_reviewed : Risor.Generated.C05.hashKeys = hashKeysReviewed := 
 
 set_option maxRecDepth 16384 in
 /-- the choosing loop of `VirtualOS.findMount` is the loop that was read against the model's
-    `selStep`: exact match returns, a qualifying mount point replaces the candidate only when it is
-    longer than the candidate -/
+    `selStep`: exact match returns, a qualifying mount point replaces the candidate only when its
+    key is longer than the KEY of the candidate (`len(k) > len(matchKey)`, `match` and `matchKey`
+    replaced together — the loop as repaired; the text it had before, with
+    `len(k) > len(match.Target)`, is `preFixFindMountLoops` and no longer passes) -/
 theorem find_mount_loop_reviewed : Risor.Generated.C05.findMountLoops = findMountLoopsReviewed := by
   decide
 
